@@ -455,6 +455,18 @@ func (f *Flat) WalkPath(env *Env) (visited []int, exit int, err error) {
 		}
 		if n.Ast != nil && !n.IsCond {
 			switch s := n.Ast.(type) {
+			case *ast.ValueSpec:
+				// go/cfg adds each var spec of a declaration as its own node
+				func() {
+					defer func() {
+						if r := recover(); r != nil {
+							if _, ok := r.(evalErr); !ok {
+								panic(r)
+							}
+						}
+					}()
+					env.execBlock([]ast.Stmt{&ast.DeclStmt{Decl: &ast.GenDecl{Tok: token.VAR, Specs: []ast.Spec{s}}}})
+				}()
 			case *ast.AssignStmt, *ast.DeclStmt:
 				func() {
 					defer func() {
